@@ -624,6 +624,16 @@ def addBoolArgs (name : String) (fv : Option (List PVal)) (dflt : Option PVal) (
       | .error e => .error e
       | .ok s => .ok { name := n, feasible := some s, default := dflt.map boolStr, ext := .boolean }
 
+
+/-! ## `clients.Study.add_trial` -/
+
+/-- `sc.search_space.assert_contains(trial.parameters)` then `self._client.add_trial(trial)`;
+`trials` is what the service stores -/
+def studyAddTrial (cfg : Cfg) (ss : List PC) (trials : List Assign) (a : Assign) : Except Err (List Assign) :=
+  match assertContains cfg ss a with
+  | .error e => .error e
+  | .ok _ => .ok (trials ++ [a])
+
 /-! ## `SequentialParameterBuilder` -/
 
 /-- `get_subspace_deepcopy(value)`: continuous/custom parameters have no subspace and the
